@@ -44,6 +44,29 @@ func (ex *Exec) callValue(st *State, fc *FnCtx, c *ssa.CallCommon, fnv Val, args
 		name := "(" + typeKey(c.Value.Type()) + ")." + c.Method.Name()
 		sig := c.Signature()
 		if ct, ok := ex.cs.ByFunc[name]; ok {
+			if ct.Dispatch != "" {
+				// the receiver's dynamic type is asserted, then the concrete method is called
+				env := &SpecEnv{ex: ex, st: st, heap: st.heap, names: map[string]tv{}, pkg: ex.prog.pkgByPath(ct.Pkg), alloc: st.alloc}
+				dt := env.resolveType(parseSpec(ct.Dispatch))
+				if dt == nil {
+					unsupported("dispatch type %s of %s does not resolve", ct.Dispatch, name)
+				}
+				f := ex.prog.prog.LookupMethod(dt, c.Method.Pkg(), c.Method.Name())
+				if f == nil {
+					unsupported("dispatch: %s has no method %s", ct.Dispatch, c.Method.Name())
+				}
+				is := eq(ifaceTag(recv), intLit(int64(ex.u.tagOf(dt))))
+				var props []string
+				if ex.ct != nil {
+					props = ex.ct.Props
+				}
+				ex.goal(st, "pre", fmt.Sprintf("%s#dispatch(%s)", fc.prefix, ex.callName(fc, ct.Short, in)), is, props, ex.posOfOpt(in), "dynamic type of the receiver is "+ct.Dispatch, nil)
+				st.assume(is)
+				ex.usedContracts[ct.Func] = true
+				var rv Val = ex.u.unbox(ifacePv(recv), ex.u.sortOf(dt))
+				ex.callFunction(st, fc, f, append([]Val{rv}, args...), nil, in, k)
+				return
+			}
 			ex.applyContract(st, fc, ct, nil, sig, c.Value.Type(), append([]Val{recv}, args...), in, k)
 			return
 		}
@@ -409,8 +432,19 @@ func (ex *Exec) applyContract(st *State, fc *FnCtx, ct *Contract, fn *ssa.Functi
 			ex.goal(st, "dec", fmt.Sprintf("%s#dec(%s)", fc.prefix, ex.callName(fc, ct.Short, in)), lexLess(now, st.entry.measure), callProps, ex.posOfOpt(in), "termination measure decreases at recursive call to "+ct.Short, ct.Decr[0])
 		}
 	}
+	// allocations the callee performs up front (C13)
+	for _, cl := range ct.Allocates {
+		v, err := env.evalTerm(cl.Text)
+		if err != nil {
+			ex.specError(cl, err)
+			continue
+		}
+		v = env.needTerm(v)
+		ex.allocCheck(st, fc, in, resize(v.T, 64, v.Ty == nil || isSigned(v.Ty)), types.Typ[types.Uint8])
+	}
 	pre := st.heap.clone()
 	preAlloc := st.alloc
+	savedBound := st.heapBound
 	// effect
 	var ms *ModSet
 	if ct.Pure {
@@ -435,6 +469,11 @@ func (ex *Exec) applyContract(st *State, fc *FnCtx, ct *Contract, fn *ssa.Functi
 		}
 	} else {
 		ex.havocCall(st, ms, ct.Func)
+	}
+	if ct.Pure {
+		// a pure callee stores nothing into the heap: references loaded later
+		// are still bounded by the previous heap bound
+		st.heapBound = savedBound
 	}
 	// results
 	var resv Val
